@@ -394,8 +394,9 @@ def r7_unwrap_writeback_twins(ctx):
            key="C11-R7|group-label")
 
 
-from ..through_time import make_rule as _mk_tt
+from ..through_time import make_rule as _mk_tt, make_t2 as _mk_t2
 _through_time = _mk_tt("C11")
+_small_edits = _mk_t2("C11")
 
 def _kmer_count_blocks(ctx):
     from .c13 import r5_coverage_and_accumulation
@@ -410,5 +411,6 @@ RULES = [
     ("C11-R6", r6_streamable),
     ("C11-R7", r7_unwrap_writeback_twins),
     ("C11-T1", _through_time),
+    ("C11-T2", _small_edits),
     ("C11-R8", _kmer_count_blocks),
 ]
